@@ -16,7 +16,7 @@ from pams.market import Market  # noqa: E402
 from pams.simulator import Simulator  # noqa: E402
 
 ID = "C13"
-RULE = ("(sim) configurations as for C05 with 1-2 user-written probe events per session, each with 1-5 hooks over all nine "
+RULE = ("(one case in three lists the same event entry under two sessions: each listing is an event of its own) (sim) configurations as for C05 with 1-2 user-written probe events per session, each with 1-5 hooks over all nine "
         "(type, before/after) combinations, time lists None, empty, or 1-6 distinct times inside and outside the run, class filter "
         "None/Market/IndexMarket, instance filter None/a market; one event may rewrite price and volume of pending orders; one run in four has no logger attached. "
         "The expected invocation multiset is computed from ground-truth occurrences (orders and cancels the agents returned, "
@@ -36,7 +36,7 @@ def check_case(case):
     timed = any(h[2] is not None for h in specs)
     nt = st_["combos"] >= 4 and timed
     empty = any(h[2] == [] for h in specs)
-    classes = list(st_["types"]) + (["rewritten"] if st_["rewritten"] else []) + (["timed"] if timed else []) + (["empty_time_list"] if empty else []) + (["no_logger"] if case.get("no_logger") else [])
+    classes = list(st_["types"]) + (["rewritten"] if st_["rewritten"] else []) + (["timed"] if timed else []) + (["empty_time_list"] if empty else []) + (["no_logger"] if case.get("no_logger") else []) + (["relisted"] if case.get("relisted") else [])
     return CaseInfo(nontrivial=nt, classes=classes, steps=st_["invocations"], sample={"case": summarize(case), "stats": st_})
 
 
@@ -46,6 +46,14 @@ def cases(draw, tier):
     case = draw(sim_cases(n_markets=(1, 3), index_prob=1, steps=(1, 20) if big else (1, 8), probes=True, always_events=True,
                           horizon=45 if big else 22, hft=True))
     cfg = case["config"]
+    ses = cfg["simulation"]["sessions"]
+    if len(ses) >= 2 and draw(st.integers(0, 2)) == 0:
+        # the same event entry listed under two sessions: every listing is an event of its own (own id, own hooks)
+        src = draw(st.sampled_from([s_ for s_ in ses if s_.get("events")] or [None]))
+        if src is not None:
+            dst = draw(st.sampled_from([s_ for s_ in ses if s_ is not src]))
+            dst["events"] = list(dst.get("events", [])) + [draw(st.sampled_from(src["events"]))]
+            case["relisted"] = True
     if draw(st.integers(0, 3)) == 0:
         case["no_logger"] = True  # hooks must fire the same whether or not a logger is attached
     if draw(st.booleans()):
